@@ -286,3 +286,11 @@ def conditionally_bound(O):
                     "output at run time", None, dict(R.facts, what="name first bound in a while body that may run zero times"),
                     scen, R.judge, "parser: %d accepting while paths keep the body's bindings; get: %d fall-back paths" % (leaks, fallback))
     O.note("while arm: %d of %d accepting paths keep the body's bindings in scope; get: %d paths fall back to an output" % (leaks, nacc, fallback))
+
+
+@obligation("C15/driver-answers-leave-no-trace", desc="next / handle_io store nothing into the iterator themselves and call only "
+            "get_row, handle_io, into_data_row resp. the driver, set_outputs, extract_output_values - on the error arms too: "
+            "what the driver answers (an error, a deviating layout) changes nothing a later row's inputs, flags or lines "
+            "are computed from, so a statically accepted test yields the static rows whatever the driver returns")
+def driver_answers_leave_no_trace(O):
+    dri.glue_keeps_state(O, rep())
